@@ -554,6 +554,22 @@ def extra_obligations(mods, tier, seed):
     }
     out += devdiff.obligations("C04/diff/variable-argument", {k: devdiff.IMPORTS + v for k, v in VARARG.items()},
                                what="an argument naming a variable changed in a nested body has its run-time value: getters and delays equal the host class's")
+    # seeded generated device programs (fixed seeds): random command sequences with literal / variable / expression arguments, positional or
+    # keyword, under branches, loops, a helper and the main loop
+    import time as _time
+    from progs import gen_dev
+    t_gen = _time.time()
+    gen_progs = {}
+    for gs, count in ((0, 60),) if tier != "thorough" else ((0, 150), (1, 150), (2, 150), (3, 150)):
+        gen_progs.update(gen_dev.programs(count, seed=gs))
+    gres = devdiff.run(gen_progs)
+    gbad = [r for r in gres if r["verdict"] not in ("same", "rejected", "python-undefined") and not r["verdict"].startswith("harness")]
+    gharness = [r for r in gres if r["verdict"].startswith("harness")]
+    out.append({"name": "C04/diff/generated-device-programs", "status": "discharged" if not gbad and not gharness else ("sat" if gbad else "unknown"), "backend": "bounded-differential", "bounded": True,
+                "where": f"{len(gen_progs)} generated device programs (fixed seeds): getter values and delays equal the host class's under CPython "
+                         f"[{sum(1 for r in gres if r['verdict'] == 'same')} same, {sum(1 for r in gres if r['verdict'] in ('rejected', 'python-undefined'))} outside the comparison]",
+                "time": round(_time.time() - t_gen, 2), "replay": {"failing": [{k: r.get(k) for k in ("name", "verdict", "first_difference", "script")} for r in gbad[:3]]},
+                "replay_confirmed": bool(gbad)})
     from progs.concat import concat_obligations
     out += concat_obligations("C04", {
         "Led": ("d = Led(9)", ["d.on()", "d.off()", "d.toggle()", "d.set_brightness(77)", "d.blink(20, 2)", "d.fade_in(50, 3)", "d.flash_pattern([1, 0], 10)"]),
